@@ -238,6 +238,29 @@ class Cluster:
         self.loop.call_at(at, self._arrive, ctx)
 
     def _arrive(self, ctx):
+        """A request reaches the broker.  Kafka handles the requests of one connection
+        strictly one at a time (the channel is muted until the response is sent -- also
+        while a long-polling Fetch or a JoinGroup sits in purgatory), so a request
+        behind an unanswered one waits in the connection's queue."""
+        tr = ctx.tr
+        if not tr.server_open or not self.nodes[ctx.node].up:
+            return
+        q = tr.__dict__.setdefault("pending_reqs", [])
+        if tr.__dict__.get("busy"):
+            q.append(ctx)
+            return
+        tr.busy = True
+        self._process(ctx)
+
+    def _next(self, tr):
+        tr.busy = False
+        q = tr.__dict__.get("pending_reqs") or []
+        if q and tr.server_open:
+            ctx = q.pop(0)
+            tr.busy = True
+            self.loop.call_soon(self._process, ctx)
+
+    def _process(self, ctx):
         tr, plan = ctx.tr, ctx.plan
         if not tr.server_open or not self.nodes[ctx.node].up:
             return
@@ -261,6 +284,7 @@ class Cluster:
     def reply(self, ctx, resp):
         tr, plan = ctx.tr, ctx.plan
         if resp is None:     # acks=0 produce: no response at all
+            self._next(tr)
             return
         if plan.fault == "drop_after":
             self.log.emit("Fault", kind="drop_after", api=ctx.api, node=ctx.node, req=ctx.no)
@@ -269,6 +293,7 @@ class Cluster:
             return
         if plan.fault == "lose_reply":
             self.log.emit("Fault", kind="lose_reply", api=ctx.api, node=ctx.node, req=ctx.no)
+            self._next(tr)
             return
         from aiokafka.protocol.types import Int32, TaggedFields
         hdr = Int32.encode(ctx.corr)
@@ -280,6 +305,7 @@ class Cluster:
         at = max(self.loop.time() + plan.delay_out, getattr(tr, "last_deliver", 0.0) + 1e-6)
         tr.last_deliver = at
         self.loop.call_at(at, self._deliver, ctx, data)
+        self._next(tr)
 
     def _deliver(self, ctx, data):
         if ctx.tr.server_open:
@@ -530,3 +556,216 @@ def seq_limbs(seq: int):
     (TLC integers are 32-bit signed and JSON mangles values >= 2^31)."""
     u = seq & 0xFFFFFFFF
     return [u >> 16, u & 0xFFFF]
+
+
+# ===========================================================================
+# consumer side: log construction, Fetch, ListOffsets
+# ===========================================================================
+def build_log(pl: PartitionLog, shape: list[dict], *, codec=0):
+    """Fill a partition log from an abstract shape (list of batch descriptions):
+      {"kind": "data", "offs": [present offsets], "last": last offset of the batch
+       (>= max(offs): compaction may have removed the tail; offs may be [] for an
+       empty compacted v2 batch), "pid": int|-1, "txnl": bool, "magic": 0|1|2,
+       "wrap": bool (v0/v1 compressed wrapper), "ts": base timestamp}
+      {"kind": "commit"|"abort", "off": marker offset, "pid": int}
+    Record value = b"<topic>-<p>@<offset>".  Maintains open/aborted transaction
+    bookkeeping like a broker (LSO, aborted-transaction index)."""
+    tpn = f"{pl.topic}-{pl.partition}"
+    for s in shape:
+        if s["kind"] == "data":
+            offs, last, magic = s["offs"], s["last"], s.get("magic", 2)
+            base = s.get("base", offs[0] if offs else last)
+            ts0 = s.get("ts", 1000 + base)
+            vals = {o: f"{tpn}@{o}".encode() for o in offs}
+            if magic == 2:
+                recs = [(o - base, ts0 + (o - base), (b"k" if o % 2 else None), vals[o], []) for o in offs]
+                data = kbatch.write_v2(base, recs, pid=s.get("pid", -1), epoch=0 if s.get("pid", -1) >= 0 else -1,
+                                       seq=0 if s.get("pid", -1) >= 0 else -1, txnl=s.get("txnl", False),
+                                       first_ts=ts0, last_offset_delta=last - base, codec=1 if s.get("gzip") else 0)
+            elif not s.get("wrap", False):
+                # uncompressed v0/v1: every message is its own "batch" for the leader
+                for o in offs:
+                    data = kbatch.write_legacy(magic, [(o, ts0 + (o - base), (b"k" if o % 2 else None), vals[o])])
+                    pl.batches.append({"base": o, "last": o, "bytes": data, "pid": -1, "txnl": False, "control": False,
+                                       "offs": [o], "rids": [vals[o].decode()], "magic": magic})
+                pl.leo = offs[-1] + 1
+                continue
+            else:
+                recs = [(o, ts0 + (o - base), (b"k" if o % 2 else None), vals[o]) for o in offs]
+                data = kbatch.write_legacy(magic, recs, compressed=True)
+                last = offs[-1]
+            pl.batches.append({"base": base, "last": last, "bytes": data, "pid": s.get("pid", -1),
+                               "txnl": s.get("txnl", False), "control": False, "offs": list(offs),
+                               "rids": [vals[o].decode() for o in offs], "magic": magic})
+            if s.get("txnl") and s["pid"] not in pl.open_txns:
+                pl.open_txns[s["pid"]] = base
+            pl.leo = last + 1
+        else:
+            off, pid = s["off"], s["pid"]
+            k, v = kbatch.control_record(s["kind"] == "commit")
+            data = kbatch.write_v2(off, [(0, 2000 + off, k, v, [])], pid=pid, epoch=0, seq=-1, txnl=True, control=True)
+            pl.batches.append({"base": off, "last": off, "bytes": data, "pid": pid, "txnl": True, "control": True,
+                               "offs": [], "rids": [], "magic": 2, "marker": s["kind"]})
+            first = pl.open_txns.pop(pid, None)
+            if s["kind"] == "abort" and first is not None:
+                pl.aborted.append((pid, first, off))
+            pl.leo = off + 1
+
+
+def _fetch_part_tuple(v, p, code, hw, lso, log_start, aborted, data, preferred=-1):
+    if v < 4:
+        return (p, code, hw, data)
+    if v == 4:
+        return (p, code, hw, lso, aborted, data)
+    if v < 11:
+        return (p, code, hw, lso, log_start, aborted, data)
+    return (p, code, hw, lso, log_start, aborted, preferred, data)
+
+
+def _h_Fetch(self, ctx):
+    R = ctx.cls.RESPONSE_TYPE
+    v, req = ctx.v, ctx.req
+    iso = getattr(req, "isolation_level", 0) if v >= 4 else 0
+    topics, any_data = [], False
+    for topic, parts in req.topics:
+        ps = []
+        for pinfo in parts:
+            p = pinfo[0]
+            off = pinfo[2] if v >= 9 else pinfo[1]
+            pl = self.parts.get((topic, p))
+            tpn = f"{topic}-{p}"
+            if pl is None:
+                ps.append(_fetch_part_tuple(v, p, UNKNOWN_TOPIC_OR_PARTITION, -1, -1, -1, [], b""))
+                continue
+            if pl.leader != ctx.node:
+                self.log.emit("FetchReply", node=ctx.node, tp=tpn, off=off, code=NOT_LEADER, req=ctx.no)
+                ps.append(_fetch_part_tuple(v, p, NOT_LEADER, -1, -1, -1, [], b""))
+                continue
+            bound = pl.lso if iso == 1 else pl.hw
+            if off < pl.log_start or off > pl.leo:
+                self.log.emit("FetchReply", node=ctx.node, tp=tpn, off=off, code=OFFSET_OUT_OF_RANGE, req=ctx.no)
+                ps.append(_fetch_part_tuple(v, p, OFFSET_OUT_OF_RANGE, pl.hw, pl.lso, pl.log_start, [], b""))
+                continue
+            avail = [b for b in pl.batches if b["last"] >= off and b["last"] < bound]
+            ncut = self.director.fetch_cut(self, ctx, tpn, off, len(avail)) if avail else 0
+            chosen = avail[:ncut]
+            data = b"".join(b["bytes"] for b in chosen)
+            aborted = []
+            if iso == 1 and chosen:
+                upper = chosen[-1]["last"]
+                aborted = [(pid, first) for (pid, first, marker) in pl.aborted if marker >= off and first <= upper]
+            if chosen:
+                any_data = True
+            self.log.emit("FetchReply", node=ctx.node, tp=tpn, off=off, code=0, iso=iso, req=ctx.no,
+                          batches=[[b["base"], b["last"]] for b in chosen], hw=pl.hw, lso=pl.lso,
+                          aborted=[[a, f] for a, f in aborted])
+            ps.append(_fetch_part_tuple(v, p, 0, pl.hw, pl.lso, pl.log_start, aborted, data))
+        topics.append((topic, ps))
+    kw = dict(topics=topics)
+    if v >= 1:
+        kw["throttle_time_ms"] = 0
+    if v >= 7:
+        kw["error_code"] = 0
+        kw["session_id"] = 0
+    resp = R(**kw)
+    if not any_data and req.max_wait_time > 0 and not getattr(ctx, "waited", False):
+        # long poll: nothing to return now, answer after max_wait (re-evaluated then)
+        ctx.waited = True
+        # drop the events logged for the empty attempt
+        self.loop.call_later(req.max_wait_time / 1000, self._fetch_retry, ctx)
+        return DEFER
+    return resp
+
+
+def _fetch_retry(self, ctx):
+    if ctx.tr.server_open and self.nodes[ctx.node].up:
+        self.reply(ctx, _h_Fetch(self, ctx))
+
+
+def _h_ListOffsets(self, ctx):
+    R = ctx.cls.RESPONSE_TYPE
+    v, req = ctx.v, ctx.req
+    iso = getattr(req, "isolation_level", 0) if v >= 2 else 0
+    topics = []
+    for topic, parts in req.topics:
+        ps = []
+        for pinfo in parts:
+            p = pinfo[0]
+            ts = pinfo[2] if v >= 4 else pinfo[1]
+            pl = self.parts.get((topic, p))
+            tpn = f"{topic}-{p}"
+            code, off = 0, -1
+            if pl is None:
+                code = UNKNOWN_TOPIC_OR_PARTITION
+            elif pl.leader != ctx.node:
+                code = NOT_LEADER
+            elif ts == -2:
+                off = pl.log_start
+            elif ts == -1:
+                off = pl.lso if iso == 1 else pl.hw
+            else:
+                off = -1
+            self.log.emit("ListOffsetsReply", node=ctx.node, tp=tpn, ts=ts, iso=iso, code=code, off=off, req=ctx.no, v=v)
+            if v == 0:
+                ps.append((p, code, [off] if code == 0 and off >= 0 else []))
+            elif v < 4:
+                ps.append((p, code, -1, off))
+            else:
+                ps.append((p, code, -1, off, 0))
+        topics.append((topic, ps))
+    return R(topics=topics) if v < 2 else R(throttle_time_ms=0, topics=topics)
+
+
+def _err_Fetch(self, ctx, code):
+    R = ctx.cls.RESPONSE_TYPE
+    v = ctx.v
+    topics = [(t, [_fetch_part_tuple(v, pi[0], code, -1, -1, -1, [], b"") for pi in ps]) for t, ps in ctx.req.topics]
+    for t, ps in ctx.req.topics:
+        for pi in ps:
+            self.log.emit("FetchReply", node=ctx.node, tp=f"{t}-{pi[0]}", off=(pi[2] if v >= 9 else pi[1]), code=code, req=ctx.no)
+    kw = dict(topics=topics)
+    if v >= 1:
+        kw["throttle_time_ms"] = 0
+    if v >= 7:
+        kw["error_code"] = 0
+        kw["session_id"] = 0
+    return R(**kw)
+
+
+def _err_ListOffsets(self, ctx, code):
+    R = ctx.cls.RESPONSE_TYPE
+    v = ctx.v
+    topics = []
+    for t, ps in ctx.req.topics:
+        out = []
+        for pi in ps:
+            self.log.emit("ListOffsetsReply", node=ctx.node, tp=f"{t}-{pi[0]}", ts=(pi[2] if v >= 4 else pi[1]), iso=0,
+                          code=code, off=-1, req=ctx.no, v=v)
+            out.append((pi[0], code, []) if v == 0 else ((pi[0], code, -1, -1) if v < 4 else (pi[0], code, -1, -1, 0)))
+        topics.append((t, out))
+    return R(topics=topics) if v < 2 else R(throttle_time_ms=0, topics=topics)
+
+
+Cluster.h_Fetch = _h_Fetch
+Cluster._fetch_retry = _fetch_retry
+Cluster.h_ListOffsets = _h_ListOffsets
+_orig_error_response = Cluster._error_response
+
+
+def _error_response2(self, ctx, code):
+    if ctx.api == "Fetch":
+        return _err_Fetch(self, ctx, code)
+    if ctx.api == "ListOffsets":
+        return _err_ListOffsets(self, ctx, code)
+    return _orig_error_response(self, ctx, code)
+
+
+Cluster._error_response = _error_response2
+
+
+def _fetch_cut(self, cluster, ctx, tpn, off, navail):
+    """how many of the available batches a fetch response carries (>= 1)"""
+    return navail
+
+
+Director.fetch_cut = _fetch_cut
